@@ -68,6 +68,12 @@ def cases(tier, seed, focus=None):
             case["inputs_as"] = r2.choice(["iter", "gen", "list", "tuple"])
             case["pre"] = r2.choice(["none", "some", "all", "zeros"])
         yield case
+    # LARGE Jacobians (millions of parameter scalars, 2 rows): size thresholds, "memory optimisations", per-input shortcuts
+    rl = random.Random(1002000 + seed)
+    for j in range(1 if tier == "quick" else 6):
+        yield {"large": {"N": [1_100_000, 1_050_000, 2_100_000][j % 3], "seed": rl.randrange(10**6),
+                         "agg": [{"name": "UPGrad"}, {"name": "MGDA"}, {"name": "DualProj"}][j % 3],
+                         "chunk": [None, 1, 2][(j // 2) % 3], "dtype": ["float64", "float32"][(j // 3) % 2]}}
 
 
 SCALES = [1e-12, 1e-9, 1e-9, 1e-6, 1e6, 1e9]
@@ -116,7 +122,45 @@ def _present(inputs, how):
     return list(inputs)
 
 
+def _run_large(case):
+    """Two requested inputs of N scalars each, two scalar outputs whose gradients are known in closed form: the rows CONFLICT on
+    the first input's block and agree (and dominate) on the second's, so aggregating the whole Jacobian differs from aggregating
+    each input's block on its own."""
+    from torchjd import backward
+    c = case["large"]
+    N, dtype = c["N"], (torch.float64 if c["dtype"] == "float64" else torch.float32)
+    g = torch.Generator().manual_seed(c["seed"])
+    a = torch.randn(N, generator=g, dtype=dtype).requires_grad_(True)
+    b = torch.randn(N, generator=g, dtype=dtype).requires_grad_(True)
+    c1 = torch.rand(N, generator=g, dtype=dtype) + 0.5
+    c2 = torch.rand(N, generator=g, dtype=dtype) + 2.0
+    c4 = torch.rand(N, generator=g, dtype=dtype) + 2.0
+    y1 = (a * c1).sum() + (b * c2).sum()
+    y2 = -0.5 * (a * c1).sum() + (b * c4).sum()
+    sig = f"LARGE|N{N}|{c['agg']}|{c['chunk']}|{c['dtype']}|{c['seed']}"
+    agg = make_agg(c["agg"], 2, dtype)
+    try:
+        backward([y1, y2], agg, inputs=[a, b], parallel_chunk_size=c["chunk"])
+    except (RuntimeError, ValueError) as e:
+        return {"ok": False, "sig": sig, "nontrivial": True, "key": "C01.value", "what": "valid backward call raised (large Jacobian)",
+                "observed": f"{type(e).__name__}: {str(e)[:160]}", "expected": "success"}
+    J = torch.stack([torch.cat([c1, c2]), torch.cat([-0.5 * c1, c4])])
+    exp = make_agg(c["agg"], 2, dtype)(J)
+    rtol = 1e-6 if dtype == torch.float64 else 2e-3
+    for name, got, want in (("first", a.grad, exp[:N]), ("second", b.grad, exp[N:])):
+        err = float((got - want).abs().max())
+        scale = float(want.abs().max()) + float(exp.abs().max())
+        if not err <= rtol * scale:
+            return {"ok": False, "sig": sig, "nontrivial": True, "key": "C01.value",
+                    "what": f"large Jacobian (2 x {2 * N}): .grad of the {name} input differs from its slice of A(J_ref)",
+                    "observed": f"max abs error {err:.3e}; |got|max {float(got.abs().max()):.3e}",
+                    "expected": f"|want|max {float(want.abs().max()):.3e} (tolerance {rtol * scale:.3e})"}
+    return {"ok": True, "sig": sig, "nontrivial": True}
+
+
 def run_case(case):
+    if "large" in case:
+        return _run_large(case)
     res = _run_case(case)
     if not res["ok"] and case.get("zero_out"):
         # is the zero-element output the cause?  the same case without it, on fresh twins
